@@ -129,6 +129,14 @@ fn main() {
                 let e_line = match e.eps { Some(f) => format!("E {}", f(&bytes, r.parse().unwrap())), None => "E -".into() };
                 Some(format!("fromhex | {} | {}", f_line, e_line))
             }
+            ["load", i, loader, flags, val] => Some(match (parse(val), reg[i.parse::<usize>().unwrap()].load) {
+                (Some(t), Some(f)) => f(&t, loader, flags.parse().unwrap()),
+                _ => "badval".into(),
+            }),
+            ["leak", i, loader, reps, h] => Some(match reg[i.parse::<usize>().unwrap()].leak {
+                Some(f) => f(&unhex(h), loader, reps.parse().unwrap()),
+                None => "badval".into(),
+            }),
             ["alloc", i, r, val] => Some(match (parse(val), reg[i.parse::<usize>().unwrap()].alloc) {
                 (Some(t), Some(f)) => f(&t, r.parse().unwrap()),
                 _ => "badval".into(),
